@@ -28,9 +28,12 @@ type c15Case struct {
 	Variant string `json:"variant,omitempty"`
 	// SrcMixed: the source's odd positions hold a Stack, a Stack alias, a pointer to an alias, a Condition
 	SrcMixed bool `json:"src_mixed,omitempty"`
+	// DstRebuilt: the destination reached its content the long way round (a value in front, removed again,
+	// the last value pushed afterwards)
+	DstRebuilt bool `json:"dst_reached_through_remove,omitempty"`
 }
 
-var c15Forms = []string{"native", "alias", "ptr-alias", "ptr-native", "aliasS", "read-only", "read-only-alias", "read-only-aliasS", "read-only-ptr-alias", "read-only-ptr-native", "zero", "freed", "nil", "int", "string", "condition", "nil-ptr-alias", "nil-ptr-native", "zero-alias",
+var c15Forms = []string{"condition-holding-dst", "cond-alias-holding-dst", "ptr-condition-holding-dst", "read-only-condition-holding-dst", "native", "alias", "ptr-alias", "ptr-native", "aliasS", "read-only", "read-only-alias", "read-only-aliasS", "read-only-ptr-alias", "read-only-ptr-native", "zero", "freed", "nil", "int", "string", "condition", "nil-ptr-alias", "nil-ptr-native", "zero-alias",
 	"nil-pp-native", "nil-pp-alias", "nil-ppp-native", "ptr-to-nil-ptr", "pp-native", "pp-alias"}
 
 // c15RunSelf: the destination is the source itself (the same handle, an alias of it, a pointer to it).
@@ -173,7 +176,14 @@ func c15Run(c *Ctx, cs c15Case, count bool) {
 		dstNative = newStackKind(cs.DstKind)
 	}
 	dstVals := c15Values(cs.DstLen, cs.DstMask, "d")
-	dstNative.Push(dstVals...)
+	if cs.DstRebuilt && cs.DstLen >= 1 {
+		dstNative.Push("passing-through")
+		dstNative.Push(dstVals[:cs.DstLen-1]...)
+		dstNative.Remove(0)
+		dstNative.Push(dstVals[cs.DstLen-1])
+	} else {
+		dstNative.Push(dstVals...)
+	}
 	if dstNative.Len() != cs.DstLen || src.Len() != cs.SrcLen {
 		return // not constructible (capacity smaller than requested length)
 	}
@@ -253,6 +263,20 @@ func c15Run(c *Ctx, cs c15Case, count bool) {
 		dst, usable = "dst", false
 	case "condition":
 		dst, usable = stackage.Cond("k", stackage.Eq, "v"), false
+	case "condition-holding-dst", "cond-alias-holding-dst", "ptr-condition-holding-dst", "read-only-condition-holding-dst":
+		// a Condition is no Stack, whatever it holds
+		cd := stackage.Cond("k", stackage.Eq, dstNative)
+		usable = false
+		switch cs.DstForm {
+		case "condition-holding-dst":
+			dst = cd
+		case "cond-alias-holding-dst":
+			dst = CondAlias(cd)
+		case "ptr-condition-holding-dst":
+			dst = &cd
+		default:
+			dst = cd.SetReadOnly(true)
+		}
 	case "nil-ptr-alias":
 		dst, usable = (*StackAlias)(nil), false
 	case "nil-ptr-native":
@@ -384,22 +408,22 @@ func c15Cases(c *Ctx) []c15Case {
 										if form != "native" && (dm != (1<<dl)-1) {
 											continue // nil patterns of the destination only with the native form
 										}
-										out = append(out, c15Case{sl, sm, sf, sc, "LIST", dl, dm, dc, form, "AND", false, false, false, "", false})
+										out = append(out, c15Case{sl, sm, sf, sc, "LIST", dl, dm, dc, form, "AND", false, false, false, "", false, false})
 										if dm == (1<<dl)-1 && (form == "native" || form == "ptr-alias" || form == "read-only") {
 											for _, v := range []string{"dst-no-nesting", "dst-push-policy"} {
 												for _, mixed := range []bool{false, true} {
-													x := c15Case{sl, sm, sf, sc, "LIST", dl, dm, dc, form, "AND", false, false, false, "", false}
+													x := c15Case{sl, sm, sf, sc, "LIST", dl, dm, dc, form, "AND", false, false, false, "", false, false}
 													x.Variant, x.SrcMixed = v, mixed
 													out = append(out, x)
 												}
 											}
-											x := c15Case{sl, sm, sf, sc, "LIST", dl, dm, dc, form, "AND", false, false, false, "", true}
+											x := c15Case{sl, sm, sf, sc, "LIST", dl, dm, dc, form, "AND", false, false, false, "", true, false}
 											out = append(out, x)
-											y := c15Case{sl, sm, sf, sc, "LIST", dl, dm, dc, form, "AND", false, false, false, "dst-validity-rejects", false}
+											y := c15Case{sl, sm, sf, sc, "LIST", dl, dm, dc, form, "AND", false, false, false, "dst-validity-rejects", false, false}
 											out = append(out, y)
 										}
 										if dm == (1<<dl)-1 && sm == (1<<sl)-1 && (form == "native" || form == "alias" || form == "read-only" || form == "int") {
-											out = append(out, c15Case{sl, sm, sf, sc, "LIST", dl, dm, dc, form, "AND", true, true, false, "", false}, c15Case{sl, sm, sf, sc, "LIST", dl, dm, dc, form, "AND", true, false, false, "", false}, c15Case{sl, sm, sf, sc, "LIST", dl, dm, dc, form, "AND", false, true, true, "", false})
+											out = append(out, c15Case{sl, sm, sf, sc, "LIST", dl, dm, dc, form, "AND", true, true, false, "", false, false}, c15Case{sl, sm, sf, sc, "LIST", dl, dm, dc, form, "AND", true, false, false, "", false, false}, c15Case{sl, sm, sf, sc, "LIST", dl, dm, dc, form, "AND", false, true, true, "", false, false})
 										}
 									}
 								}
@@ -420,6 +444,18 @@ func c15Cases(c *Ctx) []c15Case {
 				for _, dc := range []int{0, dl + sl, dl + sl - 1, dl + sl + 900} {
 					for _, form := range []string{"native", "ptr-alias", "read-only"} {
 						out = append(out, c15Case{SrcLen: sl, SrcMask: sm, SrcFIFO: sl%2 == 0, SrcKind: "LIST", DstLen: dl, DstMask: -1, DstCap: dc, DstForm: form, DstKind: "AND", DstMtx: dl == 1})
+					}
+				}
+			}
+		}
+	}
+	// destinations that reached their content through a Remove (and one more Push), tight on room
+	for dl := 1; dl <= 4; dl++ {
+		for _, free := range []int{0, 1, 2} {
+			for sl := 1; sl <= 3; sl++ {
+				for _, form := range []string{"native", "alias", "ptr-native"} {
+					for _, fifo := range []bool{false, true} {
+						out = append(out, c15Case{SrcLen: sl, SrcMask: -1, SrcKind: "LIST", SrcFIFO: fifo, DstLen: dl, DstMask: -1, DstCap: dl + free, DstForm: form, DstKind: "AND", DstRebuilt: true})
 					}
 				}
 			}
